@@ -1350,11 +1350,18 @@ def c20(side, family, n, opts):
             return dict(bad=[dict(kind='family_fails', what='%s family %s at size %d raised %s: %s' % (side, family, k, type(e).__name__, str(e)[:80]), exc=type(e).__name__)], outcome='error')
     bad = []
     # size = length of the document read / written (a family's text may grow faster than its parameter, e.g. nested indentation);
-    # work may grow at most in proportion to the size, with 15% tolerance and a constant allowance
+    # work may grow at most in proportion to the size: 15% tolerance (+400 calls) at BOTH doublings, 30% at any single one.
+    # (A one-off change of regime - e.g. the scanner stops looking ahead for a simple key after 1024 characters and then pays a
+    # constant factor more per token - shows as one doubling slightly above 2 followed by one at 2; growth that is really
+    # super-linear exceeds the tolerance at both doublings, or grossly at one.)
+    over = []
     for j in (0, 1):
         a, b2 = counts[j], counts[j + 1]; sa, sb = max(sizes[j], 1), max(sizes[j + 1], 1)
-        if b2 * sa * 100 > 115 * a * sb + 40000 * sa:
-            bad.append(dict(kind='superlinear', what='%s family %s: %d calls for %d characters but %d calls for %d characters (more than 1.15x per character + 400)' % (side, family, a, sa, b2, sb), counts=counts, sizes=sizes)); break
+        over.append((b2 * sa * 100 > 115 * a * sb + 40000 * sa, b2 * sa * 100 > 130 * a * sb + 40000 * sa))
+    if (over[0][0] and over[1][0]) or over[0][1] or over[1][1]:
+        j = 0 if (over[0][1] or not over[1][1]) else 1
+        a, b2 = counts[j], counts[j + 1]; sa, sb = max(sizes[j], 1), max(sizes[j + 1], 1)
+        bad.append(dict(kind='superlinear', what='%s family %s: %d calls for %d characters but %d calls for %d characters (calls per character grow by more than 15%% at both doublings or 30%% at one; counts %s for sizes %s)' % (side, family, a, sa, b2, sb, counts, sizes), counts=counts, sizes=sizes))
     return dict(bad=bad, outcome='ok' if not bad else 'superlinear', counts=counts, sizes=sizes)
 
 def c20prof(text):
